@@ -148,8 +148,12 @@ def block_scope_order(P, res, rule="BLOCK-SCOPE-ORDER"):
                 % (len(pushes), len(adds)), ebk.loc())
 
 
-def run(ctx, res):
+def run(ctx, res, with_frame_cover=True):
     P = ctx.P
+    if with_frame_cover:
+        # `:abort` and the test runner leave blocks through pop_to_toplevel: its reset of the surviving frame (shared with C10)
+        from . import c10 as _c10
+        _c10.frame_cover(P, res)
     ev = P.require_fn("eval::eval_expr")
     adt = P.adts.get("parser::ast::Expression_")
     if adt is None:
